@@ -3,12 +3,15 @@
 package lab
 
 import (
+	"encoding/hex"
 	"encoding/json"
+	"net/url"
 	"fmt"
 	"strconv"
 	"testing"
 	"time"
 
+	"github.com/cenkalti/rain/v2/torrent"
 	"github.com/cenkalti/rain/v2/zzverif/core"
 )
 
@@ -18,6 +21,7 @@ import (
 type c15Arg struct {
 	Seeded bool `json:"seeded"` // data complete before the first start (no "completed" may be sent)
 	Hold   bool `json:"hold"`   // tracker T1 holds its replies until the explorer releases them
+	Magnet bool `json:"magnet"` // added by magnet link (trackers in tr=): announcers exist before the metadata arrives
 }
 
 func init() { Register("c15", mkC15) }
@@ -27,8 +31,12 @@ func mkC15() *Scenario {
 	var arg c15Arg
 	var g *GenTorrent
 	var p1 *Peer
-	var t1, t2 *HTTPTrackerSrv
+	var t1, t2, t4 *HTTPTrackerSrv
 	var t3 *UDPTrackerSrv
+	var mh *metaPeer
+	t4added := false
+	notRunning := map[int]bool{} // steps before and after which the torrent was Stopping or Stopped
+	noBitfield := map[int]bool{} // steps around which the client had no bitfield (metadata unknown, not verified yet)
 	type runInfo struct{ startStep int }
 	var runs []runInfo
 	completedAt := -1
@@ -43,7 +51,23 @@ func mkC15() *Scenario {
 		t2 = w.NewHTTPTracker("10.8.8.9")
 		t2.Fail = "not registered"
 		t3 = w.NewUDPTracker("10.8.8.10", 6969)
-		w.AddTorrent(g, nil)
+		t4 = w.NewHTTPTracker("10.8.8.11") // not in the metainfo: added by AddTracker (a deviation)
+		if arg.Magnet {
+			w.G = g
+			link := "magnet:?xt=urn:btih:" + hex.EncodeToString(g.InfoHash[:])
+			for _, tier := range l.Trackers {
+				link += "&tr=" + url.QueryEscape(tier[0])
+			}
+			t, err := w.S.AddURI(link, &torrent.AddTorrentOptions{Stopped: true})
+			if err != nil {
+				core.HarnessError("AddURI: %v", err)
+			}
+			w.Tor = t
+			w.Tors = append(w.Tors, t)
+			w.Quiesce()
+		} else {
+			w.AddTorrent(g, nil)
+		}
 		if arg.Seeded {
 			id := w.Tor.ID()
 			w.Store.Mutate(id, func(files map[string]*MemFile) {
@@ -51,6 +75,10 @@ func mkC15() *Scenario {
 			})
 		}
 		p1 = w.NewPeer("p1", "10.0.0.1", 5001)
+		if arg.Magnet {
+			mh = &metaPeer{Peer: p1}
+			p1.Ext = true
+		}
 		o := &StdOpts{Behaviour: map[string]*PeerBehaviour{"p1": {Honest: true}}, EarlyScript: true}
 		connect := func(w *World) { p1.ConnectIn(w.Tor.VerifState().Port, g.InfoHash) }
 		o.Script = []*ScriptItem{
@@ -64,19 +92,48 @@ func mkC15() *Scenario {
 			{Label: "stop again", When: func(w *World) bool { s := w.Tor.VerifState().Status; return s == "Seeding" || s == "Downloading" }, Do: func(w *World) { w.CmdStop() }},
 			{Label: "advance 6s again", Do: func(w *World) { w.Advance(6 * time.Second) }},
 		}
-		o.Extra = func(w *World) []Action { return nil }
+		o.Extra = func(w *World) []Action {
+			if t4added {
+				return nil
+			}
+			// the user adds a tracker at any moment (also while the torrent is stopping)
+			return []Action{{Label: "adv:AddTracker(t4)", Do: func(w *World) {
+				t4added = true
+				w.Launch("AddTracker", func() any { return w.Tor.AddTracker("http://10.8.8.11/announce") })
+			}}}
+		}
 		w.Vars["std"] = o
 	}
 	sc.Actions = func(w *World) []Action {
 		acts := StdActions(w)
+		if mh != nil && mh.Connected() {
+			mh.scan()
+			if !mh.extSent && mh.GotHS {
+				acts = append(acts, Action{Label: "p1:ext-handshake", Do: func(w *World) { mh.sendExtHandshake(int64(len(g.InfoBytes))) }})
+			} else if len(mh.metaReqs) > 0 {
+				p := mh.metaReqs[0]
+				acts = append(acts, Action{Label: fmt.Sprintf("p1:metadata(%d)", p), Do: func(w *World) {
+					mh.metaReqs = mh.metaReqs[1:]
+					mh.sendData(p, int64(len(g.InfoBytes)), blockOf(g.InfoBytes, p))
+				}})
+			}
+		}
 		if t1.Parked() > 0 {
 			acts = append(acts, Action{Label: "tracker:t1:release", Do: func(w *World) { t1.Release() }})
 		}
 		return acts
 	}
 	sc.Check = func(w *World) {
-		if s := w.Tor.VerifState(); s.Completed && completedAt < 0 {
+		s := w.Tor.VerifState()
+		if s.Completed && completedAt < 0 {
 			completedAt = w.Step
+		}
+		if !s.HasBitfield {
+			noBitfield[w.Step-1], noBitfield[w.Step] = true, true // an announce of the next step was built in this state
+		}
+		idle := func(st string) bool { return st == "Stopped" || st == "Stopping" }
+		if idle(w.PreStatus) && idle(s.Status) {
+			notRunning[w.Step-1] = true // Check runs after the step counter moved on
 		}
 	}
 	sc.Final = func(w *World) {
@@ -93,7 +150,10 @@ func mkC15() *Scenario {
 			ok     bool // the tracker accepted it
 		}
 		var all []ann
-		for ti, ts := range []*HTTPTrackerSrv{t1, t2} {
+		for ti, ts := range []*HTTPTrackerSrv{t1, t2, nil, t4} {
+			if ts == nil {
+				continue
+			}
 			for _, r := range ts.Requests() {
 				port, _ := strconv.Atoi(r.Query.Get("port"))
 				left, _ := strconv.ParseInt(r.Query.Get("left"), 10, 64)
@@ -124,7 +184,10 @@ func mkC15() *Scenario {
 			if a.port != vs.Port {
 				w.Failf("C15.port."+a.trk[:3], "announce to %s carries port %d, the torrent listens on %d", a.trk, a.port, vs.Port)
 			}
-			if a.left < 0 || a.left > int64(len(g.Data)) {
+			if a.left == 4294967295 && noBitfield[a.step] {
+				// the client does not know yet what it has: it reports the largest 32-bit value as a placeholder
+				w.Count("announces_with_left_unknown", 1)
+			} else if a.left < 0 || a.left > int64(len(g.Data)) {
 				w.Failf("C15.left."+a.trk[:3], "announce to %s carries left=%d (torrent length %d)", a.trk, a.left, len(g.Data))
 			}
 			if a.event == "completed" && a.left != 0 {
@@ -132,7 +195,13 @@ func mkC15() *Scenario {
 			}
 		}
 		// event discipline per tracker and run
-		for _, trk := range []string{"http1", "http2", "udp"} {
+		// no announce other than 'stopped' is made while no run is in progress
+		for _, a := range all {
+			if a.event != "stopped" && notRunning[a.step] {
+				w.Failf("C15.announce-outside-run."+a.trk[:3], "announce with event %q reached %s at step %d while the torrent was stopping or stopped (no run in progress)", a.event, a.trk, a.step)
+			}
+		}
+		for _, trk := range []string{"http1", "http2", "udp", "http4"} {
 			accepted := false
 			completedSent := 0
 			for ri, run := range runs {
@@ -141,9 +210,16 @@ func mkC15() *Scenario {
 					end = runs[ri+1].startStep
 				}
 				first := true
+				startedSent := 0
 				for _, a := range all {
 					if a.trk != trk || a.step < run.startStep || a.step >= end {
 						continue
+					}
+					if a.event == "started" {
+						startedSent++
+						if startedSent == 2 {
+							w.Failf("C15.started-twice."+trk[:3], "'started' sent twice to %s within run %d", trk, ri)
+						}
 					}
 					if a.event == "stopped" {
 						if !accepted {
@@ -151,7 +227,7 @@ func mkC15() *Scenario {
 						}
 						continue
 					}
-					if first && a.event != "started" {
+					if first && a.event != "started" && trk != "http4" { // a tracker added in mid-run: see announce-outside-run
 						w.Failf("C15.first-not-started."+trk[:3], "first announce of run %d to %s has event %q, not 'started'", ri, trk, a.event)
 					}
 					first = false
@@ -183,7 +259,7 @@ func mkC15() *Scenario {
 func TestC15Lab(t *testing.T) {
 	ServeIfWorker(t)
 	rep := core.NewReport("C15", "lab-announce", "model_checking")
-	rep.Rule = "one torrent with three tiers (HTTP accepting, HTTP refusing, UDP) run through start -> download from a scripted seed -> complete -> stop -> start -> stop, with the accepting HTTP tracker optionally holding its replies; default schedule plus every single deviation (reordered deliveries, script items issued early, held replies released late); independent HTTP query / BEP 15 decoders compare every announce with the handshake peer id, info-hash, port, counters and the event discipline"
+	rep.Rule = "one torrent (from a .torrent, or from a magnet link with the trackers in tr=) with three tiers (HTTP accepting, HTTP refusing, UDP) run through start -> download from a scripted seed -> complete -> stop -> start -> stop, with the accepting HTTP tracker optionally holding its replies; default schedule plus every single deviation (reordered deliveries, script items issued early, held replies released late, AddTracker of a fourth tracker at any moment incl. while stopping); independent HTTP query / BEP 15 decoders compare every announce with the handshake peer id, info-hash, port, counters and the event discipline"
 	rep.Assumptions = []string{"interval discipline is the component-level part (virtual-time announcer enumeration)"}
 	var runs []Run
 	for _, seeded := range []bool{false, true} {
@@ -191,6 +267,7 @@ func TestC15Lab(t *testing.T) {
 			runs = append(runs, Run{Scenario: "c15", Arg: c15Arg{Seeded: seeded, Hold: hold}, Budget: 1, MaxExec: 100000})
 		}
 	}
+	runs = append(runs, Run{Scenario: "c15", Arg: c15Arg{Magnet: true}, Budget: 1, MaxExec: 100000})
 	Explore("TestC15Lab", rep, runs)
 	if n, _ := rep.Extra["udp_announces_seen"].(int64); n == 0 {
 		rep.Vacuous("vacuous: no UDP announce reached the scripted tracker")
